@@ -42,6 +42,23 @@ Theorem C16_publish_after_removal : forall (s : mstate) p buf,
   s !! p = None -> fst (msec_sem (MPublish p buf) s) = s.
 Proof. intros s p buf H. cbn. now rewrite H. Qed.
 
+(** what is committed stays committed while handles are in flight: opening for append (like every observer)
+    is a section that changes nothing - the content it hands to the new handle is a copy; a create_file that
+    fails changes nothing either, so there is nothing for it to publish later *)
+Theorem C16_append_open_and_observers_change_nothing : forall (s : mstate) p,
+  fst (msec_sem (MAppendOpen p) s) = s /\ fst (msec_sem (MExists p) s) = s /\
+  fst (msec_sem (MScan p) s) = s /\ fst (msec_sem (MMeta p) s) = s.
+Proof.
+  intros s p. cbn. repeat split.
+  - destruct (s !! p) as [f|]; [destruct (f_type f)|]; reflexivity.
+  - destruct (s !! p) as [f|]; [destruct (f_type f)|]; reflexivity.
+  - destruct (s !! p) as [f|]; reflexivity.
+Qed.
+
+Theorem C16_failed_call_changes_nothing : forall (c : msec) (s : mstate) e,
+  snd (msec_sem c s) = Err e -> fst (msec_sem c s) = s.
+Proof. exact msec_err_unchanged. Qed.
+
 Example C16_example :
   let pool := [[CCreateDir [[97%N]; [98%N]]]; [CRemoveDir [[97%N]]; CCreateFile [[97%N]]]] in
   let s0 := fst (mem_step (CCreateDir [[97%N]]) mem_new) in
@@ -57,3 +74,5 @@ Print Assumptions C16_wf_every_step.
 Print Assumptions C16_no_panic.
 Print Assumptions C16_publish_after_removal.
 Print Assumptions C16_example.
+Print Assumptions C16_append_open_and_observers_change_nothing.
+Print Assumptions C16_failed_call_changes_nothing.
